@@ -205,6 +205,8 @@ def main(tier, replay=None):
         from vcommon import drift_tier
 
         n_lists, _ = drift_tier(PROP, "list-operations", lambda: listdrv.conformance(rep, rd, PROP))     # the list helpers every interface formula is computed with
+        n_itf, _ = drift_tier(PROP, "interface-computation", lambda: __import__("itfdrv").conformance(rep, rd, PROP))   # every role assignment of Itf.tla into the real operations
+        n_lists += n_itf
     shutil.rmtree(rd, ignore_errors=True)
     return rep.finish({
         "evaluations": len(paths) + n_num + 3 * n_lists,
